@@ -114,3 +114,57 @@ _aff("nucleic",
      [Named("res_n", Obj("pdb2pqr.na:ADE", name=Str, ffname=Str, atoms=Items(PATOMR("n0"))))],
      ["assigned_ok(forcefield_, res_n.ffname, at_n0, result[0], result[1], old(at_n0.ffcharge), old(at_n0.radius))"],
      1, ["at_n0.ffcharge", "at_n0.radius"])
+
+
+# ---------------------------------------------------------------- loading a parameter file (the table itself)
+# Forcefield.__init__ on a ghost file: every parameter line becomes exactly one table entry holding the line's own numbers
+# (to their printed value), comment and blank lines contribute nothing, the optional fifth column is the group.  The
+# .names pass (SAX) is mocked.
+from pyvc.api import TmpPath, fmt  # noqa: E402
+
+BIND = {"Forcefield": "pdb2pqr.forcefield:Forcefield"}
+
+
+@harness("C01", params={"p": TmpPath(), "n": TmpPath(), "q1": Real, "r1": Real, "q2": Real, "r2": Real, "q3": Real, "r3": Real,
+                        "definition": Obj("pdb2pqr.definitions:Definition", map=DictOf())},
+         requires=["len(fmt(q1, '.4f')) <= 8 and len(fmt(q2, '.4f')) <= 8 and len(fmt(q3, '.4f')) <= 8",
+                   "r1 >= 0 and r2 >= 0 and r3 >= 0 and r1 < 100 and r2 < 100 and r3 < 100", "n != '' and p != ''"],
+         ensures=[
+             "len(result.map) == 2 and len(result.map['ALA'].atoms) == 2 and len(result.map['WAT'].atoms) == 1",
+             "result.map['ALA'].atoms['N'].charge == float(fmt(q1, '.4f')) and result.map['ALA'].atoms['N'].radius == float(fmt(r1, '.4f'))",
+             "result.map['ALA'].atoms['CA'].charge == float(fmt(q2, '.4f')) and result.map['ALA'].atoms['CA'].radius == float(fmt(r2, '.4f'))",
+             "result.map['WAT'].atoms['OW'].charge == float(fmt(q3, '.4f')) and result.map['WAT'].atoms['OW'].radius == float(fmt(r3, '.4f'))",
+             "result.map['ALA'].atoms['N'].group == 'grp1' and result.map['ALA'].atoms['N'].resname == 'ALA'",
+             "result.name == 'myff'",
+         ],
+         trace={"pdb2pqr.io:test_names_file": Str, "sax.make_parser": None, "sax.parseString": None},
+         name="Forcefield.load_user_file", native=False)
+def load_user_ff(p, n, q1, r1, q2, r2, q3, r3, definition):
+    with open(p, "w") as f:
+        f.write("# residue atom charge radius [group]\n")
+        f.write("\n")
+        f.write("ALA N " + fmt(q1, ".4f") + " " + fmt(r1, ".4f") + " grp1\n")
+        f.write("ALA   CA     " + fmt(q2, ".4f") + "   " + fmt(r2, ".4f") + "\n")
+        f.write("   \n")
+        f.write("WAT OW " + fmt(q3, ".4f") + " " + fmt(r3, ".4f") + "\n")
+    with open(n, "w") as g:
+        g.write("<ForceField></ForceField>\n")
+    return Forcefield("myff", definition, p, n)
+
+
+@harness(["C01", "C12"], params={"p": TmpPath(), "n": TmpPath(), "definition": Obj("pdb2pqr.definitions:Definition", map=DictOf()),
+                                 "k": Enum(0, 1)},
+         requires=["n != '' and p != ''"],
+         ensures=["False"],          # a parameter line that cannot be read is an error, never a silently shorter table
+         raises={"ValueError": "True", "IndexError": "True"},
+         trace={"pdb2pqr.io:test_names_file": Str, "sax.make_parser": None, "sax.parseString": None},
+         name="Forcefield.load_user_file.malformed", native=False)
+def load_bad_ff(p, n, definition, k):
+    bad = ["ALA CA 0.1o00 1.9080\n", "ALA CA 0.1000\n"]
+    with open(p, "w") as f:
+        f.write("ALA N -0.4157 1.8240\n")
+        f.write(bad[k])
+        f.write("ALA C 0.5973 1.9080\n")
+    with open(n, "w") as g:
+        g.write("<ForceField></ForceField>\n")
+    return Forcefield("myff", definition, p, n)
